@@ -93,7 +93,7 @@ func mayImpersonate(w *world, clusterTok string, k authed, identity string) bool
 	node := ""
 	found := false
 	for _, p := range pods {
-		if p.failed() {
+		if p.failed() || w.isHidden(p.ns) {
 			continue
 		}
 		if p.name == k.kube.PodName && p.ns == k.kube.PodNamespace {
@@ -107,7 +107,7 @@ func mayImpersonate(w *world, clusterTok string, k authed, identity string) bool
 		return false
 	}
 	for _, p := range pods {
-		if !p.failed() && p.ns == ns && p.sa == sa && p.node == node {
+		if !p.failed() && !w.isHidden(p.ns) && p.ns == ns && p.sa == sa && p.node == node {
 			return true
 		}
 	}
@@ -378,6 +378,48 @@ func oracleIssue(in, outp string) {
 				}
 			}
 			judge(res, s.format(res), who, r.csr, r.imp, r.cluster)
+		case "reqm":
+			if !s.caOK || s.cur == nil {
+				continue
+			}
+			m, err := parseReqM(f)
+			if err != nil {
+				continue
+			}
+			res, err := s.runM(m)
+			if err != nil || res.rejected {
+				continue
+			}
+			if res.crash {
+				skip := false
+				for _, sp := range m.specs {
+					if sp[0] == "xfcc" && !peerIsNetworkAddress(sp[3]) {
+						skip = true
+					}
+				}
+				if !skip {
+					fail("errors-not-crashes", strings.Join(f, " "))
+				}
+				continue
+			}
+			if res.code != "" {
+				continue
+			}
+			// authenticated: the first authenticator, in order, whose credential is valid
+			var who *authed
+			connOK := true
+			for _, sp := range m.specs {
+				if (sp[0] == "xfcc" && sp[3] == "nopeer") || (sp[0] == "cert" && sp[2] != "tls" && sp[2] != "tlspeer") {
+					connOK = false // no peer / no TLS auth info: security.Authenticate refuses before any authenticator runs
+				}
+			}
+			for _, sp := range m.specs {
+				if w, ok := expectedFromCredential(sp, m.req.cluster); ok && connOK && who == nil {
+					x := w
+					who = &x
+				}
+			}
+			judge(res, s.format(res), who, m.req.csr, m.req.imp, m.req.cluster)
 		case "reqa":
 			if !s.caOK || s.cur == nil {
 				continue
